@@ -207,17 +207,23 @@ fn scoped_seq(roots: &Roots, doc: &yrs::Doc) -> String {
     .to_string()
 }
 
-/// True if some map chain (map entries / XML attributes of a live scoped type) ends in a deleted, not redone entry that has
-/// an older deleted entry to its left: the state in which the conflict rule of `redo` refuses to restore the older one.
-fn shadowed_chain(roots: &Roots, doc: &yrs::Doc) -> bool {
+/// True if some map chain (map entries / XML attributes of a live scoped type) holds a deleted, not redone entry that no
+/// entry of the undo / redo stacks names in its deletions, with an older deleted entry to its left: the state in which the
+/// conflict rule of `redo` refuses to restore the older one (the walk over the right neighbours of the entry to restore
+/// passes redone entries, entries the call deletes itself and entries some stack entry deleted - and stops at this one).
+/// An entry whose deletion *is* still on a stack does not make the state part of the finding: the rule has to pass it.
+fn shadowed_chain(roots: &Roots, doc: &yrs::Doc, mgr: &yrs::undo::UndoManager<()>) -> bool {
     let txn = doc.transact();
+    let named = |id: &yrs::ID| mgr.undo_stack().iter().chain(mgr.redo_stack().iter()).any(|e| e.deletions().contains(id));
     for (h, _) in live_types(roots, &txn) {
         for k in 0..6u8 {
             for key in [crate::ops::key_name(k), format!("x{}", k)] {
                 if let Some(chain) = yrs::verif::map_chain(&txn, &h.id(), &key) {
                     // the hook lists the chain from its newest (rightmost) entry leftwards
-                    if chain.len() >= 2 && chain[0].deleted && chain[0].redone.is_none() && chain[1..].iter().any(|b| b.deleted) {
-                        return true;
+                    for (i, b) in chain.iter().enumerate() {
+                        if b.deleted && b.redone.is_none() && !named(&b.id) && chain[i + 1..].iter().any(|o| o.deleted) {
+                            return true;
+                        }
                     }
                 }
             }
@@ -318,6 +324,7 @@ pub fn run_undo(prog: &UProgram) -> UResult {
     let mut foreign: Vec<(String, String)> = vec![];
     let mut redo_cleared_nonempty = false;
     let mut scoped_seen: HashSet<(u64, u32)> = HashSet::new();
+    let mut holder_of: HashMap<(u64, u32), (u64, u32)> = HashMap::new();
     let mut violation: Option<(String, String)> = None;
     let tail = |log: &Vec<String>| log[log.len().saturating_sub(10)..].join(" ; ");
     macro_rules! fail {
@@ -331,7 +338,7 @@ pub fn run_undo(prog: &UProgram) -> UResult {
         if ul != undo_m.len() || rl != redo_m.len() {
             fail!("harness", format!("mirror out of sync: stacks {}/{} mirror {}/{}", ul, rl, undo_m.len(), redo_m.len()));
         }
-        if let Some(d) = kept_content_collected(&mgr, &doc, &mut scoped_seen, &mut cnt) {
+        if let Some(d) = kept_content_collected(&mgr, &doc, &mut scoped_seen, &mut holder_of, &mut cnt) {
             fail!("kept-content-collected", d);
         }
         let before = scoped(&roots, &doc);
@@ -519,11 +526,11 @@ pub fn run_undo(prog: &UProgram) -> UResult {
                         }
                         let got_tree: serde_json::Value = serde_json::from_str(&scoped_seq(&roots, &doc)).unwrap_or_default();
                         let want_tree: serde_json::Value = serde_json::from_str(want_seq).unwrap_or_default();
-                        let shadowed = shadowed_chain(&roots, &doc);
+                        let shadowed = shadowed_chain(&roots, &doc, &mgr);
                         let restored = restored_container(&doc);
                         let classify = |got: &serde_json::Value, want: &serde_json::Value| -> &'static str {
                             let only_maps = only_missing_keys(got, want);
-                            if only_maps && redo_cleared_nonempty {
+                            if only_maps && redo_cleared_nonempty && shadowed {
                                 ":map-entry-after-discarded-redo"
                             } else if only_maps && shadowed {
                                 // second sub-population of the same conflict rule: the entry to restore has a newer entry to its
@@ -634,7 +641,7 @@ pub fn run_undo(prog: &UProgram) -> UResult {
 
 /// C15 (last sentence) / C12: content an undo manager may still need is not collected. Every id in the deletions of an
 /// entry of the undo or redo stack must still be an item that holds its content (not a GC range, not `Deleted` content).
-fn kept_content_collected(mgr: &yrs::undo::UndoManager<()>, doc: &yrs::Doc, scoped_seen: &mut HashSet<(u64, u32)>, cnt: &mut Counters) -> Option<String> {
+fn kept_content_collected(mgr: &yrs::undo::UndoManager<()>, doc: &yrs::Doc, scoped_seen: &mut HashSet<(u64, u32)>, holder_of: &mut HashMap<(u64, u32), (u64, u32)>, cnt: &mut Counters) -> Option<String> {
     let txn = doc.transact();
     let blocks = yrs::verif::store_blocks(&txn);
     // units that belong to the scope (root 't', 'm' or 'x'), remembered while their items still say where they live:
@@ -660,8 +667,13 @@ fn kept_content_collected(mgr: &yrs::undo::UndoManager<()>, doc: &yrs::Doc, scop
             }
         };
         if matches!(root.as_deref(), Some("t") | Some("m") | Some("x")) {
+            // the item that holds the collection this block lives in (none for children of a root type)
+            let direct = if let yrs::verif::ParentInfo::Nested(id) = &b.parent { holder(id) } else { None };
             for k in b.id.clock..b.id.clock + b.len {
                 scoped_seen.insert((b.id.client.get(), k));
+                if let Some(h) = direct {
+                    holder_of.insert((b.id.client.get(), k), h);
+                }
             }
         }
     }
@@ -681,6 +693,26 @@ fn kept_content_collected(mgr: &yrs::undo::UndoManager<()>, doc: &yrs::Doc, scop
                     for k in r.start..r.end {
                         let u = (client.get(), k);
                         if !scoped_seen.contains(&u) {
+                            continue;
+                        }
+                        // content inside a collection that is itself collected cannot be restored by anyone (there is
+                        // no type left to put it into); if the stacks needed that collection, its own unit is reported
+                        let mut anc = holder_of.get(&u).copied();
+                        let mut hops = 0;
+                        let mut lost_container = false;
+                        while let Some(a) = anc {
+                            if collected.contains(&a) {
+                                lost_container = true;
+                                break;
+                            }
+                            anc = holder_of.get(&a).copied();
+                            hops += 1;
+                            if hops > 64 {
+                                break;
+                            }
+                        }
+                        if lost_container {
+                            cnt.inc("kept_units_inside_a_collected_container");
                             continue;
                         }
                         looked += 1;
